@@ -103,6 +103,7 @@ func windowConds(fn *ssa.Function) []struct {
 
 func checkC07(r *Result) {
 	P := r.P
+	defer checkLostUpdates(r, "C07")
 	r.Explanation = "Admission and once-only rules of the report lifecycle, decided on the SSA control-flow graphs: every path from MsgSubmitValue to the report store passes the bridge-withdrawal rejection, the reporter-stake computation (whose success implies an existing, un-jailed reporter), the minimum-stake test and value validation, and on the non-deposit branch the tip-or-cycle-list and window tests; the report store has a single writer whose key is (query id, reporter, round id) and whose success paths always persist the round it files the report under; SetAggregate is reached from the end blocker only for expired rounds and every aggregating iteration removes the round; the acceptance, aggregation, tip-extension and rotation window relations extracted from the guards are evaluated over all small orderings of (expiration, height) and must be mutually consistent (no report after aggregation, a report at the expiry height is accepted and aggregated in that block, rotation exactly when the round closes); rotation and old-query clearing are guarded."
 	r.NotDecided = "the whole lifecycle as a state machine over histories (tip carry-over amounts, governance changes of the cycle list), wrap-around order of the rotation beyond its guards"
 	r.Assumptions = []string{"block height is strictly increasing", "a failed message is rolled back"}
